@@ -18,6 +18,8 @@ func init() {
 			c.load("pkg/scale")
 			c.ruleEndian()
 			c.ruleUint128JSONErrors()
+			c.ruleTrimZero()
+			c.min("R-TRIMZERO", 2)
 			c.min("R-JSONERR", 2)
 			c.min("R-ENDIAN", 1)
 			c.min("R-ENDIAN/halves", 10)
